@@ -57,15 +57,21 @@ def instances(tier, seed):
             for a, b in pairs + [(6, 7), (7, 6)]:
                 out.append(dict(shape=shape, leaves=[a, b], label="%s leaves=%d,%d" % (shape, a, b), key=shape + ("/2qn" if a in two_comp else "")))
         elif shape in ("dist_l", "dist_r", "sub_sum", "pysum", "product"):
-            for a, b, c in ([(0, 1, 2), (4, 3, 5), (2, 2, 0)] if tier == "quick" else list(itertools.product(one_comp[:5], repeat=3))[::3]) + [(6, 6, 7)]:
+            for a, b, c in ([(0, 1, 2), (4, 3, 5), (2, 2, 0)] if tier == "quick" else list(itertools.product(one_comp, repeat=3))) + [(6, 6, 7), (7, 6, 6), (6, 7, 6)]:
                 out.append(dict(shape=shape, leaves=[a, b, c], label="%s leaves=%d,%d,%d" % (shape, a, b, c), key=shape + ("/2qn" if a in two_comp else "")))
         elif shape == "sum_sum":
-            for q in ([(0, 1, 2, 4), (3, 5, 0, 2)] if tier == "quick" else list(itertools.product(one_comp[:4], repeat=4))[::9]):
+            for q in ([(0, 1, 2, 4), (3, 5, 0, 2)] if tier == "quick" else list(itertools.product(one_comp[:5], repeat=4))[::2]):
                 out.append(dict(shape=shape, leaves=list(q), label="%s leaves=%s" % (shape, q), key=shape))
         elif shape in ("simplify", "simplify_merge"):
             for q in [(0, 0, 1, 4), (4, 4, 3, 0), (2, 1, 2, 1), (5, 5, 0, 3), (3, 3, 3, 1), (0, 1, 0, 4, 0), (2, 0, 2, 2, 1), (1, 0, 1, 2, 1, 0, 1)]:
                 out.append(dict(shape=shape, leaves=list(q), label="%s leaves=%s" % (shape, q), key=shape))
             out.append(dict(shape=shape, leaves=[6, 6, 7, 7], label="%s two-component qn leaves=(6,6,7,7)" % shape, key=shape + "/2qn"))
+            if tier == "thorough":
+                # every multiset pattern of 4-5 terms over the one-component pool that contains at least one repetition (equal terms in every position pattern)
+                for q in [t for t in itertools.product(one_comp[:5], repeat=4) if len(set(t)) < 4][::2] + [t for t in itertools.product((0, 1, 4), repeat=5) if len(set(t)) < 3][::3]:
+                    out.append(dict(shape=shape, leaves=list(q), label="%s leaves=%s" % (shape, q), key=shape))
+                for q in [(6, 7, 6, 7), (7, 7, 6), (6, 6, 6)]:
+                    out.append(dict(shape=shape, leaves=list(q), label="%s two-component qn leaves=%s" % (shape, q), key=shape + "/2qn"))
     return out
 
 
